@@ -504,10 +504,17 @@ def main(pid, tier=None, replay=None):
         try:
             from extract import prange as _prange
             if pid in _prange.TARGETS:
-                _prange.generate(pid, LEAN)
-                ctx.modules.append('AbacusVerif.Props.Prange%s' % pid)
-                ctx.theorems += ['AbacusVerif.Prange%s.prange_writes_private' % pid,
-                                 'AbacusVerif.Prange%s.prange_table_nonempty' % pid]
+                try:
+                    _prange.generate(pid, LEAN)
+                    ctx.modules.append('AbacusVerif.Props.Prange%s' % pid)
+                    ctx.theorems += ['AbacusVerif.Prange%s.prange_writes_private' % pid,
+                                     'AbacusVerif.Prange%s.prange_table_nonempty' % pid]
+                    ctx.extra['prange_translator'] = 'table regenerated from the source'
+                except _prange.Unavailable as e:
+                    # a store the translator cannot interpret is not a verdict: the table is left as committed, the
+                    # obligation is dropped for this run and the behavioural tie decides
+                    ctx.extra['prange_translator'] = 'unavailable (obligation dropped for this run): %s' % e
+                    log('[prange] translator unavailable:', e)
         except Exception as e:
             ctx.tie('extract-prange', ''.join(traceback.format_exception_only(type(e), e)).strip())
         if hasattr(mod, 'extract'):
